@@ -46,7 +46,9 @@ RULE = ("forms of 0-6 parts over an adversarial alphabet (quotes, backslashes, '
         "token/quoted-string/RFC 2231 ext-value/RFC 2231 continuations (1-13 regular sections, or charset-carrying "
         "with regular and extended sections mixed; in or out of order, interleaved between name and filename), "
         "header case, boundary alphabet/quoting, preamble/epilogue); mutations: every "
-        "single-byte edit of short bodies, truncations, random bytes, content-type variants; limits at n-1/n/n+1. "
+        "single-byte edit of short bodies, truncations, random bytes, content-type variants; limits at n-1/n/n+1, each delivered by config=, by set_parse_body_config() "
+        "(global default, also after replacing an earlier global configuration) and to parse_multipart_form_data called "
+        "directly with config= or relying on the global default. "
         "A lossless case is non-trivial if it has >= 1 part whose name, filename or value is not a plain token; a "
         "mutation/limit case always is. Distinct by (content-type, body, config).")
 FLOORS = {"quick": 8000, "thorough": 800000}
@@ -57,7 +59,8 @@ ASSUMPTIONS = [
     "that part parsed alone (does not depend on the other parts of the form) is demanded",
     "'header size' of a part may be read with or without the terminating CRLFs: sizes in that 4-byte window are not gated",
 ]
-REQUIRED_COUNTERS = ["oracle_evals", "lossless_url", "lossless_mp", "safety_evals", "limit_parts_evals",
+REQUIRED_COUNTERS = ["oracle_evals", "lossless_url", "lossless_mp", "safety_evals", "limit_parts_evals", "limit_direct_evals",
+                     "limit_route_direct_global", "limit_route_direct_global2", "limit_route_global2", "limit_route_direct_kw",
                      "limit_header_evals", "mp_form_quoted", "mp_form_ext", "mp_form_token", "mp_form_cont",
                      "mp_form_contx", "mp_fnform_cont", "mp_fnform_contx", "mp_files", "untyped_upload_after_typed_part",
                      "untyped_upload_before_typed_part", "mp_field_with_content_type"]
@@ -289,6 +292,14 @@ def gen_safety(rng, spec):
                    "hdr": "gzip" if rng.random() < 0.1 else None, "cfg": None}
 
 
+# Routes by which a limit configuration reaches the multipart parser (besides config= / the global default seen through
+# parse_body_arguments): the public parse_multipart_form_data called directly, with config= or relying on the global
+# default installed by set_parse_body_config(); and histories in which the global default was replaced (a decoy
+# configuration installed first) before the one under test.
+EXTRA_ROUTES = ["direct_kw", "direct_global", "direct_global", "direct_global2", "global2"]
+DECOY_CFGS = [(True, 0, 10 * 1024), (True, 100000, 1 << 20), (True, 100, 0), (True, 1, 1)]
+
+
 def gen_limits(rng):
     """One form, probed with max_parts around n and max_part_header_size around the largest header."""
     parts = gen_form(rng, maxparts=rng.choice([1, 2, 3, 5]))
@@ -302,9 +313,11 @@ def gen_limits(rng):
     for mp in (n - 1, n, n + 1):
         if mp >= 0:
             yield dict(base, cfg=(True, mp, 10 * 1024), via=rng.choice(["kw", "kw", "global"]))
+            yield dict(base, cfg=(True, mp, 10 * 1024), via=rng.choice(EXTRA_ROUTES))
     for L in (hmax - 1, hmax, hmax + 1, hmax + 3, hmax + 4, hmax + 5):
         if L >= 0:
             yield dict(base, cfg=(True, 100, L), via=rng.choice(["kw", "kw", "global"]))
+            yield dict(base, cfg=(True, 100, L), via=rng.choice(EXTRA_ROUTES))
 
 
 def shards(tier, seed):
@@ -382,6 +395,10 @@ def directed_cases():
     for k in (1, 2, 3):
         yield dict(base, k="limit", cfg=(True, k, 10240), n=2,
                    hmax=max(len(t[4]) for t in base["parts"]), via="kw")
+        # the same limits installed as the global default, then the multipart parser called directly without config=
+        for via in ("direct_global", "direct_global2", "direct_kw", "global2"):
+            yield dict(base, k="limit", cfg=(True, k, 10240), n=2,
+                       hmax=max(len(t[4]) for t in base["parts"]), via=via)
 
 
 # ---------------------------------------------------------------------------
@@ -405,7 +422,23 @@ def call(case, ctx=None):
     via = case.get("via", "kw")
     saved = httputil._DEFAULT_PARSE_BODY_CONFIG
     try:
-        if cfg is not None and via == "global":
+        if via in ("direct_kw", "direct_global", "direct_global2"):
+            # the public multipart parser itself; its limits come from config= or from the global default
+            bnd = case["boundary"].encode("utf-8")
+            if cfg is None:
+                parse_multipart_form_data(bnd, case["body"], args, files)
+            elif via == "direct_kw":
+                parse_multipart_form_data(bnd, case["body"], args, files, config=cfg.multipart)
+            else:
+                if via == "direct_global2":
+                    httputil.set_parse_body_config(make_cfg(DECOY_CFGS[len(case["body"]) % len(DECOY_CFGS)]))
+                httputil.set_parse_body_config(cfg)
+                parse_multipart_form_data(bnd, case["body"], args, files)
+        elif cfg is not None and via == "global2":
+            httputil.set_parse_body_config(make_cfg(DECOY_CFGS[len(case["body"]) % len(DECOY_CFGS)]))
+            httputil.set_parse_body_config(cfg)
+            parse_body_arguments(case["ct"], case["body"], args, files, hdr)
+        elif cfg is not None and via == "global":
             httputil.set_parse_body_config(cfg)
             parse_body_arguments(case["ct"], case["body"], args, files, hdr)
         elif cfg is not None:
@@ -591,6 +624,8 @@ def nontrivial_form(case):
 def run_case(case, ctx):
     k = case["k"]
     key = (case["ct"], case["body"], case.get("cfg"), case.get("hdr"))
+    if k == "limit" and case.get("via") in EXTRA_ROUTES:
+        key = key + (case["via"],)
     if k in ("mp", "url"):
         outcome, args, files, exc = call(case)
         if case.get("unspec"):
@@ -688,8 +723,26 @@ def run_case(case, ctx):
             return
         wit = {"parts": n, "max_parts": mp, "largest_header_block": hmax, "max_part_header_size": hs,
                "outcome": outcome, "exc": repr(exc), "ct": case["ct"], "body": case["body"], "via": case.get("via")}
-        ctx.check(outcome != "other_exception", f"safety/limit/raises-{type(exc).__name__}",
-                  "parse_body_arguments raised something other than HTTPInputError", wit)
+        via = case.get("via", "kw")
+        direct = via.startswith("direct")
+        # mechanism suffix: the limit clause is the same, the route by which the configuration arrives is not
+        rt = {"direct_kw": "/direct-call", "direct_global": "/direct-call-global-config",
+              "direct_global2": "/direct-call-global-config-replaced", "global2": "/global-config-replaced"}.get(via, "")
+        if direct:
+            # The statement's limit clause covers the multipart parser whichever way it is entered (set_parse_body_config
+            # documents the *global default* configuration for parsing request bodies; parse_multipart_form_data is the
+            # public multipart body parser). Which exception type a DIRECT call raises is not pinned: only
+            # accepted-vs-refused is judged on this route.
+            ctx.count("limit_direct_evals")
+            ctx.count("limit_route_" + via)
+            if outcome == "other_exception":
+                ctx.count("unspecified_direct_" + type(exc).__name__)
+                outcome = wit["outcome"] = "input_error"   # refused
+        else:
+            if rt:
+                ctx.count("limit_route_" + via)
+            ctx.check(outcome != "other_exception", f"safety/limit/raises-{type(exc).__name__}",
+                      "parse_body_arguments raised something other than HTTPInputError", wit)
         # A form that is mis-read even without limits is the lossless shards' business: judge the limit only
         # relative to the unlimited outcome.
         base_outcome = call(dict(case, cfg=None))[0]
@@ -701,22 +754,22 @@ def run_case(case, ctx):
             ctx.count("limit_parts_evals")
             if n > mp:
                 ctx.count("limit_parts_over")
-                ctx.check(outcome == "input_error", "limit/max_parts/over-limit-accepted",
+                ctx.check(outcome == "input_error", "limit/max_parts/over-limit-accepted" + rt,
                           "a body with more parts than max_parts was accepted", wit)
             else:
                 ctx.count("limit_parts_at" if n == mp else "limit_parts_under")
-                ctx.check(outcome == "ok", "limit/max_parts/at-limit-refused" if n == mp
-                          else "limit/max_parts/under-limit-refused",
+                ctx.check(outcome == "ok", ("limit/max_parts/at-limit-refused" if n == mp
+                                            else "limit/max_parts/under-limit-refused") + rt,
                           "a body with no more parts than max_parts was refused", wit)
         else:
             ctx.count("limit_header_evals")
             if hmax > hs:
                 ctx.count("limit_header_over")
-                ctx.check(outcome == "input_error", "limit/max_part_header_size/over-limit-accepted",
+                ctx.check(outcome == "input_error", "limit/max_part_header_size/over-limit-accepted" + rt,
                           "a part whose header block alone exceeds max_part_header_size was accepted", wit)
             elif hmax + 4 <= hs:
                 ctx.count("limit_header_under")
-                ctx.check(outcome == "ok", "limit/max_part_header_size/under-limit-refused",
+                ctx.check(outcome == "ok", "limit/max_part_header_size/under-limit-refused" + rt,
                           "a part whose header block including its terminating CRLFCRLF fits "
                           "max_part_header_size was refused", wit)
             else:
